@@ -21,7 +21,7 @@ theorem getIvs_lax_eq_filter (a b : Int) (hab : a < b) (es : List (Iv Int)) (hp 
 theorem new_of_wf (t : ITier Int) (h : t.WF) : t.new = .ok t := by
   unfold ITier.new
   simp only [Option.getD_none]
-  rw [mkITier_of_wf t.name t.es t.lo t.hi h.pos h.disj h.stripped]
+  rw [mkITier_of_wf t.name t.es t.lo t.hi h.span h.pos h.disj h.stripped]
   rw [hullMin_eq_of_le _ _ (by intro x hx; obtain ⟨iv, hiv, rfl⟩ := List.mem_map.1 hx; exact h.inLo iv hiv)]
   rw [hullMax_eq_of_ge _ _ (by intro x hx; obtain ⟨iv, hiv, rfl⟩ := List.mem_map.1 hx; exact h.inHi iv hiv)]
 
